@@ -255,6 +255,8 @@ def canon(line):
         line = _ser.sub(" ser=*", line)
         if " t=3 " in " " + line:
             line = re.sub(r" body=.*? uk=", " body=~ uk=", line)
+        elif snd == "-" and " t=2 " in " " + line and " sig=73 " in line:
+            line = re.sub(r" body=.*? uk=", " body=~ uk=", line)      # GetMachineId from the peer filter: the machine's uuid
     if " member=" + b"ListNames".hex() not in line:
         pass
     return line
